@@ -1,5 +1,6 @@
 SPECIFICATION GenSpec
 CONSTANTS
+  BeginOnce = TRUE
   MaxIdx = 2
   Timeouts = {0, 1, 2, 3}
   MaxH = 14
